@@ -9,3 +9,6 @@ open Just.Props.C19
 #print axioms fmt_gated
 #print axioms documented_falsy_are_falsy
 #print axioms falsy_set_differs_from_readme
+#print axioms fallback_every_level_gated
+#print axioms fallback_parent_refused
+#print axioms fallback_stable_never_refused
